@@ -10,7 +10,7 @@ C03 driver.  Ops (one per line):
       vars = `-` or `,`-separated  <varid>:<ty>                ty = s|u followed by the rank digit 1 char … 5 long long
       lits = `-` or `,`-separated  <hexspelling>:<ty>:<value>   (what the C compiler sees; used by `annOK` only)
       tree = the serialisation printed by harness/c03.cpp
-    → <r12> <r21> # <findings> # per tree four letters T/F: annOK eqNeSafe cmpSafe vtOK(all nodes)
+    → <r12> <r21> # <findings> # per tree three letters T/F: annOK cmpSafe vtOK(all nodes)
   eval <vars> <lits> <env>;<env>;… | <tree>          env = `-` or `,`-separated <varid>=<value>
     → `,`-separated  v:<value> | ub
 -/
@@ -159,7 +159,7 @@ def step (line : String) : String :=
         | [a, b] => results cpp a b ++ " " ++ results cpp b a
         | _ => "---- ----"
       res ++ " # " ++ findingsStr (findings trees) ++ " # " ++
-        " ".intercalate (trees.map fun t => tf (annOK S t) ++ tf (eqNeSafe t) ++ tf (cmpSafe S t) ++ tf (vtAll S t))
+        " ".intercalate (trees.map fun t => tf (annOK S t) ++ tf (cmpSafe S t) ++ tf (vtAll S t))
     | _, _, _ => "bad-op"
   | "eval" :: vars :: lits :: envs :: "|" :: rest =>
     match parseVars vars, parseLits lits, (envs.splitOn ";").mapM parseEnv, parseWhole rest with
